@@ -301,6 +301,16 @@ func (g *grammarCtx) nestedSource(x ast.Expr) string {
 	return ""
 }
 
+func isErrIsNil(e ast.Expr) bool {
+	b, ok := e.(*ast.BinaryExpr)
+	if !ok || b.Op != token.EQL {
+		return false
+	}
+	id, ok := b.X.(*ast.Ident)
+	nl, ok2 := b.Y.(*ast.Ident)
+	return ok && ok2 && nl.Name == "nil" && (id.Name == "err" || strings.HasPrefix(id.Name, "err"))
+}
+
 func isErrNotNil(e ast.Expr) bool {
 	b, ok := e.(*ast.BinaryExpr)
 	if !ok || b.Op != token.NEQ {
@@ -367,6 +377,12 @@ func (g *grammarCtx) block(stmts []ast.Stmt) []tok {
 			}
 			if isErrNotNil(x.Cond) {
 				g.checkErrBranch(x)
+				continue
+			}
+			if isErrIsNil(x.Cond) {
+				// `if err == nil { next steps }`: the success continuation,
+				// not a data-dependent alternative
+				out = append(out, g.block(x.Body.List)...)
 				continue
 			}
 			if len(g.callsStream(x.Cond)) > 0 {
@@ -472,6 +488,9 @@ func (g *grammarCtx) condStr(e ast.Expr) string {
 
 // checkErrBranch: `if err != nil { return ..., err }` must hand a non-nil error on.
 func (g *grammarCtx) checkErrBranch(x *ast.IfStmt) {
+	if !g.enc {
+		return // decoders: decided exactly by the SSA error-flow rule (C18.6)
+	}
 	for _, s := range x.Body.List {
 		if r, ok := s.(*ast.ReturnStmt); ok {
 			if len(r.Results) == 0 {
@@ -487,6 +506,9 @@ func (g *grammarCtx) checkErrBranch(x *ast.IfStmt) {
 }
 
 func (g *grammarCtx) checkFollowedByErrCheck(stmts []ast.Stmt, i int) {
+	if !g.enc {
+		return // decoders: decided exactly by the SSA error-flow rule (C18.6)
+	}
 	as, ok := stmts[i].(*ast.AssignStmt)
 	if !ok {
 		if es, ok := stmts[i].(*ast.ExprStmt); ok {
